@@ -199,6 +199,24 @@ func c02Normalise(c *core.Ctx, r *c13roles) {
 			evals[cf] = true
 		}
 	}
+	// a callee that merely hands back the results of further evaluators (return p.parseX(...)) is a dispatcher, not an
+	// evaluator: descend into what it delegates to
+	for changed := true; changed; {
+		changed = false
+		for f := range evals {
+			dels := delegates(f, r)
+			if len(dels) == 0 {
+				continue
+			}
+			delete(evals, f)
+			for _, d := range dels {
+				if !evals[d] {
+					evals[d] = true
+				}
+			}
+			changed = true
+		}
+	}
 	var es []*ssa.Function
 	for f := range evals {
 		es = append(es, f)
@@ -279,7 +297,15 @@ func c02KindDispatch(c *core.Ctx, r *c13roles) {
 		}
 		return out
 	}
-	inDispatch := comparedIn(r.parseNode)
+	inDispatch := map[string]bool{}
+	for _, f := range evalPath(r) {
+		// the dispatch may live in ParseNode or in a helper it delegates to
+		if f == r.parseNode || delegatedFrom(r.parseNode, f, 0) {
+			for k := range comparedIn(f) {
+				inDispatch[k] = true
+			}
+		}
+	}
 	// the validator: the function storing the hash field; kinds it replaces by an expansion
 	expanded := map[string]bool{}
 	for _, f := range c.RepoFunctions() {
@@ -318,7 +344,7 @@ func c02KindDispatch(c *core.Ctx, r *c13roles) {
 		switch {
 		case inDispatch[k]:
 			c.OK("R02d", key, consts[k].Pos(), "a case of the ParseNode dispatch")
-		case expanded[k] && !inDispatch[k] && isTemplateKind(c, r, k):
+		case expanded[k] && !inDispatch[k]:
 			c.OK("R02d", key, consts[k].Pos(), "replaced by its expansion in the validator before evaluation")
 		default:
 			c.Bad("R02d", key, consts[k].Pos(), "declaration kind "+consts[k].Name()+" has no evaluator in ParseNode and is not expanded away by the validator: such declarations fail (or are mis-evaluated) at run time only")
@@ -485,4 +511,82 @@ func c02Casts(c *core.Ctx, r *c13roles) {
 		c.Unresolved("R02f", "numeric casts", "no strconv.Parse* call found in package transform")
 	}
 	c.Floor("R02f", 3, "ParseInt, ParseFloat, ParseBool in the cast table")
+}
+
+// delegates: if every non-error-only return of f hands back the whole result tuple of a call to another context method
+// with the same result signature, returns those callees (f is a dispatcher); otherwise nil.
+func delegates(f *ssa.Function, r *c13roles) []*ssa.Function {
+	var out []*ssa.Function
+	seen := map[*ssa.Function]bool{}
+	for _, b := range f.Blocks {
+		for _, in := range b.Instrs {
+			rt, ok := in.(*ssa.Return)
+			if !ok || len(rt.Results) != 2 {
+				continue
+			}
+			if core.IsNilConst(rt.Results[0]) {
+				continue
+			}
+			ex0, ok0 := rt.Results[0].(*ssa.Extract)
+			ex1, ok1 := rt.Results[1].(*ssa.Extract)
+			if !ok0 || !ok1 || ex0.Tuple != ex1.Tuple || ex0.Index != 0 || ex1.Index != 1 {
+				return nil
+			}
+			call, ok := ex0.Tuple.(*ssa.Call)
+			if !ok {
+				return nil
+			}
+			cf := call.Call.StaticCallee()
+			if cf == nil || core.FuncPkg(cf) != r.tp || cf.Signature.Recv() == nil || cf == f {
+				return nil
+			}
+			rs := cf.Signature.Results()
+			if !(rs.Len() == 2 && isEmptyIface(rs.At(0).Type()) && isErrorT(rs.At(1).Type())) {
+				return nil
+			}
+			if !seen[cf] {
+				seen[cf] = true
+				out = append(out, cf)
+			}
+		}
+	}
+	return out
+}
+
+// delegatedFrom: g is reached from f through a chain of dispatchers (f's results are g's results).
+func delegatedFrom(f, g *ssa.Function, d int) bool {
+	if d > 3 || f.Blocks == nil {
+		return false
+	}
+	for _, ci := range core.Calls(f) {
+		cf := ci.Common().StaticCallee()
+		if cf == nil || cf == f {
+			continue
+		}
+		// the call's results are returned by f
+		call, ok := ci.(*ssa.Call)
+		if !ok {
+			continue
+		}
+		returned := false
+		for _, u := range core.Referrers(call) {
+			if ex, ok := u.(*ssa.Extract); ok {
+				for _, u2 := range core.Referrers(ex) {
+					if _, ok := u2.(*ssa.Return); ok {
+						returned = true
+					}
+					if _, ok := u2.(*ssa.MapUpdate); ok {
+						returned = true
+					}
+				}
+			}
+		}
+		if !returned {
+			continue
+		}
+		if cf == g || delegatedFrom(cf, g, d+1) {
+			return true
+		}
+	}
+	return false
 }
